@@ -874,9 +874,13 @@ def e_eq(a, b):
             return a == b
         return mkbool(bt(a) == bt(b))
     try:
-        return _cmp(a, b, operator.eq, operator.eq)
+        r = _cmp(a, b, operator.eq, operator.eq)
     except HarnessError:
         return False
+    if isinstance(r, SBool) and (isinstance(a, SKey) or isinstance(b, SKey)):
+        # symbolic dictionary keys: equality is decided by the solver right away (section 2.4)
+        return E().branch(r.t)
+    return r
 
 
 def e_ne(a, b):
